@@ -193,13 +193,15 @@ theorem tie_shape_me :
 /-! ### follow-up wp-c04b: NVAR store (the model is C10's; here: how the UEFI parser reaches it) -/
 
 /-- `NewFile` parses the store once, from `f.buf[f.DataOffset:]`; the walk hands `newNVar` the window
-    `s.buf[FreeSpaceOffset:GUIDStoreOffset]` and runs while `FreeSpaceOffset < GUIDStoreOffset`; `newNVar`
-    clips the entry to `buf[:Size]` and looks for a nested store in `v.buf[v.DataOffset:]`, once -/
+    `s.buf[FreeSpaceOffset:GUIDStoreOffset]`, runs while `FreeSpaceOffset < GUIDStoreOffset` and refuses an entry that
+    ends behind the table it grew (`FreeSpaceOffset > GUIDStoreOffset`, fixes/C04-nvar-table-overlap.diff); `newNVar`
+    clips the entry to `buf[:Size]` and looks for a nested store in `v.buf[v.DataOffset:]`, once, and only when
+    the ExtHeader attribute is clear (`Attributes&NVarEntryExtHeader == 0`, fixes/C10-nested-ext-header.diff) -/
 theorem tie_shape_nvar :
     Gen.UefiParse.callcount_NewFile_NewNVarStore = 1 ∧
-    Gen.UefiParse.sliceshapes_NewNVarStore = ["[l:h]"] ∧ Gen.UefiParse.cmpops_NewNVarStore = ["<"] ∧
+    Gen.UefiParse.sliceshapes_NewNVarStore = ["[l:h]"] ∧ Gen.UefiParse.cmpops_NewNVarStore = ["<", ">"] ∧
     Gen.UefiParse.callcount_NewNVarStore_newNVar = 1 ∧
-    Gen.UefiParse.sliceshapes_newNVar = ["[:h]", "[l:]"] ∧ Gen.UefiParse.cmpops_newNVar = [] ∧
+    Gen.UefiParse.sliceshapes_newNVar = ["[:h]", "[l:]"] ∧ Gen.UefiParse.cmpops_newNVar = ["== 0"] ∧
     Gen.UefiParse.callcount_newNVar_parseContent = 1 ∧ Gen.UefiParse.callcount_NVar_parseContent_NewNVarStore = 1 := by decide
 
 /-! ### follow-up wp-c04b: writes to byte slices inside the parser -/
